@@ -227,7 +227,18 @@ impl G {
             }
             11 | 12 => {
                 let a = self.boolean(d - 1);
-                let b = self.boolean(d - 1);
+                // sometimes a right operand that is statically true but still dereferences (`e is User`, `x || true`)
+                let b = match self.rng.gen_range(0..6) {
+                    0 => {
+                        let u = self.user(d - 1);
+                        json!(["is", u, "User"])
+                    }
+                    1 => {
+                        let x = self.boolean(d - 1);
+                        json!(["or", x, lit_bool(true)])
+                    }
+                    _ => self.boolean(d - 1),
+                };
                 json!(["or", a, b])
             }
             13 => json!(["not", self.boolean(d - 1)]),
